@@ -48,8 +48,8 @@ import Blots.Model.Format
    8. END TO END ON THE FRAGMENT OF C10 (`Frag t`, `Lemmas/ExprPegLemmas.lean`: binary
       operators, prefix `-` / `!`, postfix `!`, calls, index, field, list literals, lambdas,
       conditionals, string literals without both kinds of quote, record literals, do-blocks
-      whose statements are expressions with a leftmost name other than `via` / `into` / `where`
-      — all without comments — over non-reserved identifiers, built-in names, `true false
+      whose statements are expressions with a leftmost name other than `via` / `into` / `where`,
+      assignments — all without comments — over non-reserved identifiers, built-in names, `true false
       null`, integers 0 ≤ n < 10^15; unbounded depth).  For EVERY
       width the text `format_expr` returns is a re-layout (`Relayout`) of the printed text, in
       at most one redundant pair of parentheses, and the character-level PEG model of the
@@ -61,7 +61,7 @@ import Blots.Model.Format
       (`Lemmas/FormatFragment.lean`.)
 
   NOT proved: the text-level round trip OUTSIDE that fragment — that the whole formatted text
-  of a tree with comments, assignments, `output`, input references, general numbers, strings
+  of a tree with comments, `output`, input references, general numbers, strings
   with both kinds of quote, do-block statements that start with a word-operator name, lexed
   character by character by the PEG grammar, yields the tree; nor the statement level (a whole
   program).  That is
@@ -403,7 +403,7 @@ theorem word_operator_name_breaks_layout_equivalence :
 
 /-! ### 8. END TO END on the fragment of C10 (`Frag`: operators, calls, index, field, list
     literals, lambdas, conditionals, string literals without both kinds of quote, record
-    literals, do-blocks): format, then read the TEXT back.
+    literals, do-blocks, assignments): format, then read the TEXT back.
 
     `canonF t` is `format_single_line t` as a concrete syntax tree: the printer's tree `canon t`
     except that, where `format_single_line` itself descends (lambda bodies, call arguments, list
@@ -422,7 +422,8 @@ theorem format_is_relayout (t : Expr) (h : Frag t) (w indent : Nat) :
 
 /-- … and which tree that is (`fmtCST`): the printer's own wherever the single-line form fits;
     otherwise, for a binary operator, `left ⏎ indent+2 blanks  op ␣ right` over the re-formatted
-    operands, for a prefix / postfix operator the sign directly at the re-formatted operand. -/
+    operands, for a prefix / postfix operator the sign directly at the re-formatted operand, for
+    an assignment `name = ` in front of the value re-formatted at the same indent. -/
 theorem format_layout_tree (w indent : Nat) :
     (∀ t, Frag t → isLambda t = false → fits w indent t = true → fmtCST w indent t = canonF t) ∧
     (∀ op l r, fits w indent (.bin op l r) = false → (chainOp op && isLambda r) = false →
@@ -461,8 +462,10 @@ theorem format_layout_tree (w indent : Nat) :
         (match fmtChainCST w indent e with | some _ => [.sp] | none => .lf :: List.replicate (indent + 2) .sp)
         (match fmtChainCST w indent e with | some x => x | none => fmtCST w (indent + 2) e)) ∧
     (∀ es, fits w indent (.record es) = false → fmtCST w indent (.record es) =
-      mkRecordML indent (fmtEntsCST w (indent + 2) es)) := by
-  refine ⟨?_, ?_, ?_, ?_, ?_, ?_, ?_, ?_, ?_, ?_, ?_, ?_⟩
+      mkRecordML indent (fmtEntsCST w (indent + 2) es)) ∧
+    (∀ n v, fits w indent (.assign n v) = false → fmtCST w indent (.assign n v) =
+      .asg n [.sp] [.sp] (fmtCST w indent v)) := by
+  refine ⟨?_, ?_, ?_, ?_, ?_, ?_, ?_, ?_, ?_, ?_, ?_, ?_, ?_⟩
   · intro t h hl hf
     cases t <;> first
       | (simp [Frag, frag, fragB] at h; done)
@@ -481,6 +484,7 @@ theorem format_layout_tree (w indent : Nat) :
   · intro items hf; rw [fmtCST, hf]; rfl
   · intro c t e hf; rw [fmtCST, hf]; rfl
   · intro es hf; rw [fmtCST, hf]; rfl
+  · intro n v hf; rw [fmtCST, hf]; rfl
 
 /-- the multi-line conditional: `if c then⏎ (indent+2) t⏎ indent else …` when `if c then` fits,
     else `if c'⏎ indent then⏎ (indent+2) t⏎ indent else …` with the condition re-formatted one
@@ -970,6 +974,26 @@ example : ¬ Frag (.doBlock [stm (.bin .add (.ident "via") ib)] (stm ia)) ∧
       "do {\n  (via + b)\n  return a\n}" ∧
     formatExpr (.doBlock [stm (.bin .add (.ident "via") ib)] (stm ia)) (some 3) =
       "do {\n  via\n    + b\n  return a\n}" := by decide +kernel
+
+/-- assignments: `name = ` and the value formatted at the same indent (the width test of the
+    value does not count the name); as a left operand in parentheses -/
+private abbrev x11 : Expr :=
+  .assign "f" (.lambda [.req "x"] (.doBlock [stm (.assign "y" (.call ig [.ident "x", ia]))]
+    (stm (.bin .mul (.ident "y") (.bin .add ib (.assign "z" (.ident "c")))))))
+example : Frag x11 := by decide +kernel
+example : formatExpr x11 (some 80) = "f = x => do {\n  y = g(x, a)\n  return y * (b + z = c)\n}" ∧
+    formatExpr x11 (some 14) = "f = x => do {\n  y = g(x, a)\n  return y\n    * (b + z = c)\n}" ∧
+    formatExpr x11 (some 1) =
+      "f = x => do {\n  y = g(\n    x,\n    a,\n  )\n  return y\n    * (b\n      + z = c)\n}" := by
+  decide +kernel
+example : parseText (formatExpr x11 (some 1)) = some x11 ∧
+    parseText (formatExpr x11 (some 14)) = some x11 ∧ parseText (formatExpr x11 (some 80)) = some x11 :=
+  ⟨format_text_roundtrip x11 (by decide +kernel) 1, format_text_roundtrip x11 (by decide +kernel) 14,
+    format_text_roundtrip x11 (by decide +kernel) 80⟩
+example : reads (formatExpr x11 (some 14)) =
+    some "f = (x) => do {\n  y = g(x, a)\n  return y * (b + z = c)\n}" := by decide +kernel
+example : formatExpr (.assign "total" (.bin .add ia ib)) (some 8) = "total = a + b" ∧
+    formatExpr (.bin .add (.assign "t" ia) ib) (some 3) = "(t = a)\n  + b" := by decide +kernel
 end text_examples
 
 end Blots.C07
